@@ -282,7 +282,7 @@ type CopyCase struct {
 // GenCopy draws a fault-free copy case.
 func GenCopy(rt *rapid.T) CopyCase {
 	c := CopyCase{Src: Backends[hx.Uniform(rt, len(Backends), "src")], Dst: Backends[hx.Uniform(rt, len(Backends), "dst")], FailAt: -1}
-	src := fsmodel.GenTree(rt, 14, false)
+	src := fsmodel.GenTree(rt, 14, true)
 	c.SrcTree = fsmodel.Flatten(src)
 	// destination: a mutated partial image of the source (same kinds, different often longer bytes) plus extras
 	dst := fsmodel.NewDir()
